@@ -82,7 +82,8 @@ def parseCsvFmt? (s : String) : Option CsvFmt :=
   else if s.startsWith "f" then ((s.drop 1).toString.toNat?).map .f else none
 
 /-- does `line` decompose into the cells at their nominal widths (literals in place)? a zero-width
-field takes everything up to the next literal (or the end) -/
+field — and a cell whose spec the cell model does not cover (`other`: datetime `%` specs, `e`) — takes
+everything up to the next literal (or the end) -/
 partial def conforms : List Cell → List Char → Bool
   | [], rest => rest.isEmpty
   | .lit t :: cs, rest =>
@@ -95,11 +96,16 @@ partial def conforms : List Cell → List Char → Bool
         -- shortest split such that the remainder conforms
         let n := rest.length
         (List.range (n + 1)).any fun k => (t.toList.isPrefixOf (rest.drop k)) && conforms cs (rest.drop k)
-      | _ => conforms cs []
+      | _ => (List.range (rest.length + 1)).any fun k => conforms cs (rest.drop k)
     else
       -- a cell may legitimately be wider than its width only by overflowing; that is non-conformant
       if rest.length < spec.width then false else conforms cs (rest.drop spec.width)
-  | .other _ :: _, _ => false
+  | .other _ :: cs, rest =>
+    match cs with
+    | .lit t :: _ =>
+      let n := rest.length
+      (List.range (n + 1)).any fun k => (t.toList.isPrefixOf (rest.drop k)) && conforms cs (rest.drop k)
+    | _ => (List.range (rest.length + 1)).any fun k => conforms cs (rest.drop k)
 
 def handle : List String → Option String
   | ["c17", "row", w, line, env] => do
